@@ -10,6 +10,9 @@ KF01 == <<0, 1>>
 KF00 == <<0, 0>>
 KF10 == <<1, 0>>
 KF001 == <<0, 0, 1>>
+FixNone == {}
+FixAll == {"anchored", "size", "own", "undo"}
+FixAnchored == {"anchored"}
 vars == <<img, st, phase>>
 AllHdrs == {[t |-> "H", key |-> k, first |-> fi, next |-> nx, pay |-> p, esz |-> e,
              mok |-> m, mkey |-> k, msz |-> 0, mhl |-> 1, mpriv |-> FALSE] :
@@ -29,11 +32,19 @@ Out == Index(st)
 NoCrash == st.crash = ""
 \* bookkeeping of the loading phase: only mapped slots are finalized; only slots that were looked at carry flags
 SlotStates == \A s \in 0..(N - 1) : (st.ls[s].fin => st.ls[s].mapped) /\ ((st.ls[s].mapped \/ st.ls[s].freed) => s < st.pos \/ s = st.pos)
+\* C57 itself; holds for the machine with all proposed repairs (Fix = FixAll)
 Strict == phase = "done" => IndexOk(N, img, Out)
-\* everything C57 demands except that the chain begins with the inode (that conjunct fails today: finding F6)
-AllButAnchored == phase = "done" =>
-   /\ Terminated(Out) /\ Exclusive(Out) /\ Partition(N, Out)
-   /\ \A i \in 1..Len(Out.ent) : LET e == Out.ent[i] IN Walkable(e) /\ Acyclic(e) /\ OnDisk(img, e) /\ OneKey(img, e) /\ SizesAddUp(e)
+\* what today's code (Fix = {}) achieves: C57 up to the three shapes of finding (orphan tail, size-short, foreign slot)
+TodayOk(out) ==
+   /\ Terminated(out)
+   /\ \A i \in 1..Len(out.ent) : LET e == out.ent[i] IN
+         /\ Walkable(e) /\ Acyclic(e) /\ OnDisk(img, e)
+         /\ SumSizes(e.chain, Len(e.chain)) <= e.sfs
+   /\ (Exclusive(out) /\ Partition(N, out)) \/ \E i \in 1..Len(out.ent) : ForeignSlot(img, out.ent[i])
+   /\ SeqSet(out.free) \subseteq 0..(N - 1)
+Today == phase = "done" => TodayOk(Out)
+\* with only the F6 repair: no orphan tails any more, the other two shapes remain
+AnchoredOnly == phase = "done" => LET out == Out IN TodayOk(out) /\ \A i \in 1..Len(out.ent) : ~OrphanTail(img, out.ent[i])
 \* the conjuncts of C57 one by one (to see which of them today's code breaks, and on which images)
 PerEntry(P(_)) == phase = "done" /\ ~Dead(st) => \A i \in 1..Len(Out.ent) : P(Out.ent[i])
 P_Term == phase = "done" => Terminated(Out)
